@@ -20,4 +20,9 @@ theorem futureDrop_spec (self : Nat) (s : QState) :
 /-- the drop looks at the queue only when the future was draining it, and a queue it hands back is rescheduled -/
 theorem futureDrop_guarded : futureDropGuarded = true ∧ futureDropReschedules = true := by decide
 
+/-- the `draining` flag of the model (`Fut.draining`) follows the code: `drain_queue` raises it on entry, leaves it raised only on
+the exit that leaves the queue `WaitingForPoll(this future)`, lowers it on every other exit; `poll` itself never writes it (so a
+later poll that finds the result already there leaves a stale `true`, which the model has too) -/
+theorem draining_writes : drainingWrites = [true, false, true, false, false] ∧ pollWritesDraining = false := by decide
+
 end Desync
